@@ -126,5 +126,16 @@ CHECKS.update({
 NOT_APPLICABLE.pop("C13", None)
 NOT_APPLICABLE.pop("C14", None)
 
+CHECKS["C13"].update(category="proof",
+    text="Over an arbitrary commutative ring: scaleElem = textbook DAG evaluation for every well-founded scale graph incl. both error cases (scaling_is_dataflow), Horner = "
+         "Σ cᵢxⁱ, fuel sufficiency, scaling a window = window of the scaled data, get_scaling lookup order, status 'scaled', number of scales incl. the regex prefix semantics "
+         "for all indices. Tied to the code by the executable model over ℚ vs the real channel[:] on files carrying NI_Scale properties and by an independent exact-rational oracle.",
+    technique="Lean 4 + Mathlib proof (ring-level refinement to a DAG spec) + executable model over ℚ + exact-rational oracle")
+CHECKS["C14"].update(category="proof",
+    text="declared_eq_actual: for every well-founded scale graph over numeric raw / scaler types the dtype channel.dtype declares equals the dtype the arithmetic produces, "
+         "using NumPy's promotion tables re-extracted from the installed NumPy on every run (tables_agree, resultType_closed by kernel evaluation); value scales give float64. "
+         "Tied to the code by declared/actual kinds of the model vs channel.dtype / returned arrays, and by the exhaustive raw type x scale kind x read kind oracle.",
+    technique="Lean 4 proof (induction along the wiring + decide +kernel over regenerated NumPy tables) + exhaustive type x scale enumeration")
+
 NOTES = ("Properties move from not_applicable to checks as their model, correspondence and theorems are built; a check is claimed at `proof` only when its "
          "headline theorems are registered in lean/obligations.json. See DESIGN.md.")
